@@ -691,6 +691,7 @@ func (e *Engine) havocCell(st *State, cr cellRef, tag string) {
 	case *types.Basic:
 		_ = u
 		st.mem.cells[pathKey(cr.reg.id, cr.path)] = e.symbolicScalar(name, cr.typ)
+		st.markWritten(pathKey(cr.reg.id, cr.path))
 	case *types.Slice:
 		// slice header: new unknown slice over a fresh dynamic region
 		r := e.newRegion(name, u.Elem(), true)
@@ -710,6 +711,7 @@ func (e *Engine) havocCell(st *State, cr cellRef, tag string) {
 func (e *Engine) havocDyn(st *State, s *SliceVal, tag string) {
 	if s.reg.dyn {
 		lo, hi := intRange(s.elem)
+		st.markWritten(pathKey(s.reg.id, nil))
 		st.mem.cells[pathKey(s.reg.id, nil)] = &Term{Op: "var", Sort: SArr, Name: e.freshName(tag + "." + s.reg.name + ".arr"), Lo: lo, Hi: hi}
 		return
 	}
